@@ -65,7 +65,8 @@ pub fn game_ending(
         return Some(GameEnding::Draw);
     }
 
-    if board.halfmove_clock() >= 50 {
+    // Fifty-move rule: fifty moves by each side, i.e. 100 halfmoves (plies).
+    if board.halfmove_clock() >= 100 {
         return Some(GameEnding::Draw);
     }
 
